@@ -393,3 +393,106 @@ class Directions:
             if s == want:
                 return k
         return None
+
+
+class _TableReturn(Exception):
+    def __init__(self, value, node):
+        Exception.__init__(self)
+        self.value, self.node = value, node
+
+
+class _TableAbort(Exception):
+    pass
+
+
+def eval_table_function(fn, args):
+    """Partial evaluation of a pure integer table function (switch / if chain / static const array look-up) for concrete
+    integer arguments. Returns (value, return node); value is None when the call aborts. Raises AnalysisBroken on any
+    construct that is not part of such a table."""
+    env = {}
+    arrays = {}
+    for p, v in zip(fn["params"], args):
+        env[p["id"]] = v
+
+    def ev(e):
+        e = C.strip_casts(e)
+        k = e.get("k")
+        if k == "Ref" and "id" in e and e["id"] in env:
+            return env[e["id"]]
+        v = C.const_int(e)
+        if v is not None:
+            return v
+        if k == "Bool":
+            return int(bool(e["v"]))
+        if k == "Idx":
+            b = C.strip_casts(e["a"])
+            i = ev(e["i"])
+            if b.get("k") == "Ref" and b.get("id") in arrays and 0 <= i < len(arrays[b["id"]]):
+                return arrays[b["id"]][i]
+            raise AnalysisBroken("%s: table look-up `%s` out of range or unknown" % (fn["full"], C.pretty(e)))
+        if k == "Cond":
+            return ev(e["a"]) if ev(e["c"]) else ev(e["b"])
+        if k == "Un" and e["op"] == "!":
+            return int(not ev(e["x"]))
+        if k == "Un" and e["op"] == "-":
+            return -ev(e["x"])
+        if k == "Bin":
+            op = e["op"]
+            if op == "&&":
+                return int(bool(ev(e["a"])) and bool(ev(e["b"])))
+            if op == "||":
+                return int(bool(ev(e["a"])) or bool(ev(e["b"])))
+            x, y = ev(e["a"]), ev(e["b"])
+            table = {"+": lambda: x + y, "-": lambda: x - y, "*": lambda: x * y, "<<": lambda: x << y, "|": lambda: x | y,
+                     "&": lambda: x & y, "<": lambda: int(x < y), ">": lambda: int(x > y), "<=": lambda: int(x <= y),
+                     ">=": lambda: int(x >= y), "==": lambda: int(x == y), "!=": lambda: int(x != y),
+                     "%": lambda: x % y if y else 0, "/": lambda: x // y if y else 0}
+            if op in table:
+                return table[op]()
+        raise AnalysisBroken("%s: expression `%s` is not part of an integer table (line %s)" %
+                             (fn["full"], C.pretty(e)[:80], e.get("l")))
+
+    def run(st):
+        k = st.get("k")
+        if k == "Block":
+            if st.get("mac") in C.ABORT_MACROS:
+                raise _TableAbort()
+            if st.get("mac"):
+                return
+            for c in st.get("s", []):
+                run(c)
+        elif k == "Decl":
+            for d in st["d"]:
+                init = C.strip_casts(d["init"]) if d.get("init") is not None else None
+                if init is not None and init.get("k") == "InitList":
+                    arrays[d["id"]] = [ev(x) for x in init["a"]]
+                elif init is not None:
+                    env[d["id"]] = ev(init)
+        elif k == "If":
+            if ev(st["c"]):
+                run(st["th"])
+            elif st.get("el") is not None:
+                run(st["el"])
+        elif k == "Switch":
+            sel = ev(st["c"])
+            _, arms, default = switch_arms(fn, st)
+            arm = arms.get(sel, default)
+            if arm is not None:
+                for s2 in arm["stmts"]:
+                    run(s2)
+        elif k == "Return":
+            raise _TableReturn(ev(st["x"]) if st.get("x") is not None else None, st)
+        elif k in ("Null", "Break"):
+            pass
+        elif k == "Bin" and st["op"] == "=" and C.strip_casts(st["a"]).get("k") == "Ref":
+            env[C.strip_casts(st["a"])["id"]] = ev(st["b"])
+        else:
+            raise AnalysisBroken("%s: statement kind %s is not part of an integer table (line %s)" %
+                                 (fn["full"], k, st.get("l")))
+    try:
+        run(fn["body"])
+    except _TableReturn as r:
+        return r.value, r.node
+    except _TableAbort:
+        return None, None
+    return None, None
